@@ -8,6 +8,7 @@ package main
 //   callers G = {F1, F2}            functions that call G (G: func, T.method, or pkg.func)
 //   const NAME == VALUE             value of a package constant
 //   nocall F : G                    F (and its closures) never calls G
+//   mustcall F : G1 | G2            F (or one of its closures) calls at least one of the Gs
 //
 // Function names are relative to the package: F, T.m; closures count for their
 // enclosing function.
@@ -286,6 +287,43 @@ func (e *Engine) runStructCheck(c *StructCheck) structResult {
 			return structResult{name, false, who + " calls " + target}
 		}
 		return structResult{name, true, who + " never calls " + target}
+	case "mustcall":
+		// mustcall F : G1 | G2   - F (or one of its closures) calls at least one of the Gs
+		parts := strings.SplitN(rest, ":", 2)
+		if len(parts) != 2 {
+			return structResult{name, false, "bad syntax"}
+		}
+		who := strings.TrimSpace(parts[0])
+		var targets []string
+		for _, t := range strings.Split(parts[1], "|") {
+			if t = strings.TrimSpace(t); t != "" {
+				targets = append(targets, t)
+			}
+		}
+		exists := false
+		for _, fn := range fns {
+			if relName(fn) != who {
+				continue
+			}
+			exists = true
+			for _, b := range fn.Blocks {
+				for _, in := range b.Instrs {
+					ci, ok := in.(ssa.CallInstruction)
+					if !ok {
+						continue
+					}
+					for _, t := range targets {
+						if calleeMatches(ci.Common(), t, c.Pkg) {
+							return structResult{name, true, who + " calls " + t}
+						}
+					}
+				}
+			}
+		}
+		if !exists {
+			return structResult{name, false, "function " + who + " not found"}
+		}
+		return structResult{name, false, who + " (with its closures) calls none of " + strings.Join(targets, ", ")}
 	case "const":
 		parts := strings.SplitN(rest, "==", 2)
 		if len(parts) != 2 {
